@@ -77,6 +77,7 @@ class Obl:
     slice: bool = True
     unwinding_assertions: bool = True    # False: paths beyond the unwinding bound are cut (the obligation's assertions sit before the first loop)
     witness_re: Optional[str] = None     # reachability witness other than VF_WITNESS: a property (regex on its key) that MUST fail
+    instrument: List[str] = field(default_factory=list)   # goto-instrument arguments applied to the goto binary before cbmc (e.g. --replace-calls f:g)
     backend: Optional[str] = None     # 'cvc5int': cbmc --cvc5 with cvc5 started as `cvc5 --solve-bv-as-int=sum` (mul/div by constants)
     ignore_props: List[str] = field(default_factory=list)  # regexes on 'file:function desc' that are not part of the claim
 
@@ -310,6 +311,14 @@ def run_obl(prop_id, o, workdir, extra_defs):
         res.update(status='broken', detail='goto-cc failed: ' + err.decode(errors='replace')[-1500:])
         res['wall_s'] = round(time.time() - t0, 2)
         return res
+    if o.instrument:
+        gb2 = os.path.join(od, 'hi.gb')
+        rc, out, err, dt, to = run_cmd(['goto-instrument'] + list(o.instrument) + [gb, gb2], 300, 16)
+        if rc != 0 or not os.path.exists(gb2):
+            res.update(status='broken', detail='goto-instrument failed: ' + (out or b'').decode(errors='replace')[-800:] + err.decode(errors='replace')[-800:])
+            res['wall_s'] = round(time.time() - t0, 2)
+            return res
+        gb = gb2
     outf = os.path.join(od, 'out.json')
     benv = None
     if o.backend == 'cvc5int':
